@@ -406,6 +406,7 @@ func runC07(r *engine.Run) {
 			c.Fail("streams/frame-refused", err.Error(), nil)
 			return
 		}
+		observe(&q) // a receiver logs the frame it decoded
 		var derr error
 		if viaFRM {
 			derr = q.DecodeFRMPayloadToMACCommands()
@@ -647,6 +648,7 @@ func runC07(r *engine.Run) {
 				c.Fail("streams/port0-through-decrypt/decode", fmt.Sprintf("%x: %v", wire, err), nil)
 				continue
 			}
+			observe(&q) // a receiver logs the frame it decoded
 			q.MACPayload.(*lorawan.MACPayload).FHDR.FCnt = 3
 			c.NonTrivial()
 			if err := q.DecryptFRMPayload(key); err != nil {
@@ -721,6 +723,7 @@ func runC07(r *engine.Run) {
 				c.Fail("streams/refused-then-valid/decode", fmt.Sprintf("%x: %v", wire, err), nil)
 				return
 			}
+			observe(&q) // a receiver logs the frame it decoded
 			qm := q.MACPayload.(*lorawan.MACPayload)
 			var got []lorawan.Payload
 			if inFRM {
